@@ -41,6 +41,42 @@ CHECKS = {
              "captured when the clock moved are proved unchanged later; no series extends past now.",
         technique="symbolic execution of bt/core.py; relational snapshot comparison of accessors on symbolic trees, z3 per path, concrete replay",
         ref="DESIGN.md §3 C08"),
+    'C03': dict(
+        text="Index recurrence price[t](value[t-1]+flows[t]) = price[t-1] value[t] proved on every date of symbolic operation histories with the flows "
+             "the harness injected as ghost variables (solvent and degenerate pre-states), flow-neutrality without P&L, and capital-scale invariance of a "
+             "multi-date rebalancing script (the recorded index must be free of the capital variable).",
+        technique="symbolic execution of bt/core.py; rational-function normal forms + z3 per path; concrete replay",
+        ref="DESIGN.md §3 C03"),
+    'C06': dict(
+        text="Real algos.Rebalance / RebalanceOverTime / StrategyBase.rebalance from an arbitrary prior portfolio (symbolic positions and capital): exact target "
+             "weights without costs, within one unit plus costs otherwise, untargeted children closed, remainder in cash, sub-strategy targets spread by "
+             "child weights, stepwise targets with re-arming, on every feasible path.",
+        technique="symbolic execution of bt/algos.py + bt/core.py on rational-function values, z3 per path, concrete replay",
+        ref="DESIGN.md §3 C06"),
+    'C09': dict(
+        text="Relational: the same calendar-gated child definition run nested (symbolic parent capital and child weight, solver-chosen allocation dates, "
+             "possibly bankrupt parent) and stand-alone through the real Backtest.run; the two price series and the parent's universe column are proved "
+             "equal date for date.",
+        technique="symbolic execution of two real Backtest.run executions (relational), z3 per path, concrete replay",
+        ref="DESIGN.md §3 C09"),
+    'C12': dict(
+        text="Real RunPeriod.__call__/compare_dates of the five calendar schedulers on a symbolic strictly increasing index of timestamps (day ordinal and "
+             "second as SMT Ints, calendar fields as table-driven step functions validated against pandas on every day 1990-2040), all flag combinations "
+             "and positions, off-index dates; counting/date schedulers on symbolic call sequences with repeats against a reference automaton.",
+        technique="symbolic execution of bt/algos.py schedulers over SMT-encoded civil calendar, z3 (LIA) per path, concrete replay on pandas",
+        ref="DESIGN.md §3 C12"),
+    'C13': dict(
+        text="Real AlgoStack.__call__, Or, Not, Require, Strategy.run with mock algos whose return values and run_always markers are symbolic choices, "
+             "checked against a reference interpreter (invocation log and result) on every feasible path up to length 4 with nesting; RunIfOutOfBounds on a "
+             "real tree with symbolic positions, capital and tolerance.",
+        technique="symbolic execution with solver-driven choice points (bounded exhaustive over return/marker patterns) + z3 for the numeric part",
+        ref="DESIGN.md §3 C13"),
+    'C16': dict(
+        text="Real Backtest.run with a spy algo, leveraged/short targets and symbolic later prices (positions constant, values linear): flag iff a recorded "
+             "value is negative (two one-sided implications), every position in the tree closed from that date, algos no longer run, value and cash "
+             "constant, sub-strategies and fixed-income roots never flagged, on every feasible path (bankruptcy on any date or none).",
+        technique="symbolic execution of the real Backtest.run with symbolic future prices, z3 (LRA) per path, concrete replay",
+        ref="DESIGN.md §3 C16"),
 }
 
 NOT_YET = "check not built yet in this session (planned in DESIGN.md §3); will move to checks when its harness lands"
